@@ -486,6 +486,31 @@ theorem pybqm_changeVartype_after_history_reported (vt : En.VT) (ops : List (HOp
     rw [← evalL_eq_repEval _ (g.changeVartype pyToBinary pyToSpin .spin).toLInv, ← evalL_eq_repEval _ g.toLInv]
     exact h.2 hvt x
 
+/-- **all interleavings of edits through a model and its views (dict back-end)**: after any history of calls issued through
+    the model or through a `.spin` / `.binary` view object — fresh or held across vartype changes — (`add_linear`, `set_linear`,
+    `add_variable`, `add_quadratic`, `set_quadratic`, `remove_interaction`, `remove_variable`, the offset setter: each the
+    composition of data-level calls `vartypeview.py` makes), `relabel_variables` steps and in-place `change_vartype`, the
+    representation invariant holds, and a conversion preserves the energy computed from the reported coefficients at the
+    converted sample, both directions -/
+theorem pybqm_changeVartype_after_view_history (vt : En.VT) (calls : List (En.VT × VOp Rat)) :
+    LInv (LBqm.vrun vt calls) ∧
+    ((LBqm.vrun vt calls).vt = .spin → ∀ s : Label → Rat,
+      repEval ((LBqm.vrun vt calls).changeVartypeWith pyToBinary pyToSpin .binary) (fun v => (s v + 1) / 2)
+        = repEval (LBqm.vrun vt calls) s) ∧
+    ((LBqm.vrun vt calls).vt = .binary → ∀ x : Label → Rat,
+      repEval ((LBqm.vrun vt calls).changeVartypeWith pyToBinary pyToSpin .spin) (fun v => 2 * x v - 1)
+        = repEval (LBqm.vrun vt calls) x) := by
+  have g := GInv.vrun vt calls
+  refine ⟨g.toLInv, ?_, ?_⟩
+  · intro hvt s
+    rw [← evalL_eq_repEval _ (g.changeVartype pyToBinary pyToSpin .binary).toLInv, ← evalL_eq_repEval _ g.toLInv,
+      pybqm_changeVartype_toBinary_any_state _ g.toLInv hvt]
+    congr 1; funext v; ring
+  · intro hvt x
+    rw [← evalL_eq_repEval _ (g.changeVartype pyToBinary pyToSpin .spin).toLInv, ← evalL_eq_repEval _ g.toLInv,
+      pybqm_changeVartype_toSpin_any_state _ g.toLInv hvt]
+    congr 1; funext v; ring
+
 /-- non-vacuity, the state seeded change C02-5 needs: `a` with an interaction is relabelled to `c`; the linear entry of `c`
     is first in its neighbourhood as coded (the theorem above does not depend on that) -/
 example : (LBqm.hrun .spin [.addLinear (.int 0) 1, .addQuadratic (.int 0) (.int 1) 2, .relabel (.int 0) (.int 2)]).rawOrder
